@@ -160,32 +160,32 @@ theorem execActive_cases (s : State σ κ) (a e : σ) (amt : Int) :
 
 theorem execTransfer_cases (s : State σ κ) (f t e : σ) (amt : Int) :
     Failed (execTransfer c s f t e amt) s ∨
-    (f ≠ t ∧ checkAmount amt = true ∧ 0 ≤ wrap ((loadSub c s f e).bal - amt) ∧
+    (f ≠ t ∧ c.norm f ≠ c.norm t ∧ checkAmount amt = true ∧ 0 ≤ wrap ((loadSub c s f e).bal - amt) ∧
       execTransfer c s f t e amt =
         (saveSub c (saveSub c s e { loadSub c s f e with bal := wrap ((loadSub c s f e).bal - amt) }) e
           { loadSub c s t e with bal := wrap ((loadSub c s t e).bal + amt) }, .ok)) := by
   unfold execTransfer Failed
-  by_cases h0 : f = t
+  by_cases h0 : f = t ∨ c.norm f = c.norm t
   · left; simp [h0, Res.isErr]
   · by_cases h1 : checkAmount amt = true
     · by_cases h2 : wrap ((loadSub c s f e).bal - amt) < 0
       · left; simp [h0, h1, h2, Res.isErr]
-      · right; exact ⟨h0, h1, by omega, by simp [h0, h1, h2]⟩
+      · right; exact ⟨fun h => h0 (Or.inl h), fun h => h0 (Or.inr h), h1, by omega, by simp [h0, h1, h2]⟩
     · left; simp [h0, h1, Res.isErr]
 
 theorem execTransferFrozen_cases (s : State σ κ) (f t e : σ) (amt : Int) :
     Failed (execTransferFrozen c s f t e amt) s ∨
-    (f ≠ t ∧ checkAmount amt = true ∧ 0 ≤ wrap ((loadSub c s f e).frz - amt) ∧
+    (f ≠ t ∧ c.norm f ≠ c.norm t ∧ checkAmount amt = true ∧ 0 ≤ wrap ((loadSub c s f e).frz - amt) ∧
       execTransferFrozen c s f t e amt =
         (saveSub c (saveSub c s e { loadSub c s f e with frz := wrap ((loadSub c s f e).frz - amt) }) e
           { loadSub c s t e with bal := wrap ((loadSub c s t e).bal + amt) }, .ok)) := by
   unfold execTransferFrozen Failed
-  by_cases h0 : f = t
+  by_cases h0 : f = t ∨ c.norm f = c.norm t
   · left; simp [h0, Res.isErr]
   · by_cases h1 : checkAmount amt = true
     · by_cases h2 : wrap ((loadSub c s f e).frz - amt) < 0
       · left; simp [h0, h1, h2, Res.isErr]
-      · right; exact ⟨h0, h1, by omega, by simp [h0, h1, h2]⟩
+      · right; exact ⟨fun h => h0 (Or.inl h), fun h => h0 (Or.inr h), h1, by omega, by simp [h0, h1, h2]⟩
     · left; simp [h0, h1, Res.isErr]
 
 theorem execIssue_cases (s : State σ κ) (e : σ) (amt : Int) :
